@@ -1,4 +1,5 @@
 import Robotools.Props.C02
+import Robotools.Proofs.GenFns
 #print axioms Robotools.C02.addStep_ok_iff
 #print axioms Robotools.C02.addStep_vol
 #print axioms Robotools.C02.addStep_err
@@ -16,3 +17,8 @@ import Robotools.Props.C02
 #print axioms Robotools.C02.world_limits
 #print axioms Robotools.C02.mk_valid
 #print axioms Robotools.C02.trough_mk_valid
+#print axioms Robotools.GenFns.all_translated
+#print axioms Robotools.GenFns.gen_add_step_spec
+#print axioms Robotools.GenFns.gen_remove_step_spec
+#print axioms Robotools.GenFns.gen_addStep_ok
+#print axioms Robotools.GenFns.gen_removeStep_ok
